@@ -608,6 +608,30 @@ impl Prop for C08 {
         cfg.min_feature = 0.25;
         cfg.max_depth = 1 + rng.below(3);
         let mut p = shape::generate(rng, &cfg);
+        // one scene in ten is divided by a field that is identically 2 but
+        // whose *interval* contains zero over large cells (dependency
+        // over-estimation: xy - (y+x)x + xx): the quotient's interval is NaN
+        // there - undecided, not empty - and the surface is unchanged
+        if rng.chance(0.1) {
+            use crate::gen_::prog::{Bin, PNode};
+            let mut push = |n: PNode| {
+                p.nodes.push(n);
+                (p.nodes.len() - 1) as u32
+            };
+            let (x, y) = (push(PNode::Var(0)), push(PNode::Var(1)));
+            let xy = push(PNode::Bin(Bin::Mul, x, y));
+            let ypx = push(PNode::Bin(Bin::Add, y, x));
+            let t = push(PNode::Bin(Bin::Mul, ypx, x));
+            let xx = push(PNode::Bin(Bin::Mul, x, x));
+            let a = push(PNode::Bin(Bin::Sub, xy, t));
+            let b = push(PNode::Bin(Bin::Add, a, xx));
+            let two = push(PNode::Const(2.0));
+            let d = push(PNode::Bin(Bin::Add, two, b));
+            let old = p.outputs[0];
+            let root = push(PNode::Bin(Bin::Div, old, d));
+            p.outputs = vec![root];
+            st.inc("scenes_with_nan_intervals_over_large_cells");
+        }
         // one scene in eight lives a few units away from the model origin
         // (a part of a larger model), and the view looks at it there
         let mut off = [0f32; 3];
